@@ -70,6 +70,7 @@ var httpMalformed = []string{
 	"encoding:bad-gzip", "encoding:bad-zstd", "encoding:unknown", "both:bad-gzip+text/plain",
 	"encoding:zstd-damaged", "encoding:gzip-damaged",
 	"media:text/plain", "media:application/xml", "media:none", "media:garbage", "media:application/grpc",
+	"media:application/json-seq", "media:application/jsonl", "media:application/json5; charset=utf-8", "media:application/x-protobuf-delimited", "media:application/x-protobuffer",
 	"method:GET", "method:PUT", "method:DELETE", "method:PATCH", "method:HEAD",
 }
 
@@ -722,6 +723,9 @@ func (e *env) evaluate(j *job) {
 		j.add("consumer-calls", fmt.Sprintf("the consumer behind the receiver was invoked %d times for one request (want 1)", len(j.recs)), snap(wit), sig("outcome", o.Kind)...)
 	}
 	for i, r := range j.recs {
+		if r.RO {
+			j.add("payload", "the payload was already marked read-only when it reached the receiver's consumer (every request is decoded into a payload of its own, which its consumer may change)", snap(wit), sig("paths", "arrived-read-only")...)
+		}
 		if r.Signal != cs.Signal {
 			j.add("payload", fmt.Sprintf("payload sent as %s arrived as %s", cs.Signal, r.Signal), snap(wit), sig("paths", "signal")...)
 			continue
